@@ -19,6 +19,12 @@ Six goroutines per stream, all explicit:
   LT   the listener `startListener(targetStreamServer)` feeding FA over an unbuffered channel
   CS   the goroutine FA's deferred block starts around `sourceStreamClient.CloseSend()`
 
+Flow control: a gRPC `Send` blocks while the receiving peer does not read ("until there is sufficient
+flow control, or the stream is done, or the stream breaks").  `Dir.stalled` (set / cleared by the
+environment actions `Act.stall d` / `Act.unstall d`) says that the peer direction `d`'s loop sends to
+is not reading; `rProc d` holding a message is then NOT enabled as long as the `Send` could succeed
+(`sendOk`), and returns the error at once when the stream is done / broken / its context cancelled.
+
 gRPC is environment ("modelled, not verified"): `Env` lists every assumption on it as a switch;
 `GrpcStreamEnv` (in `Spec/Forwarder.lean`) is the conjunction the liveness theorem needs.
 -/
@@ -104,6 +110,7 @@ structure Dir where
   lis       : LPc := .top
   loop      : RPc := .waiting
   sendFails : Bool := false     -- the `Send` of THIS direction's loop (to the other peer) fails from now on
+  stalled   : Bool := false     -- the peer THIS direction's loop sends to is not reading: a `Send` blocks (gRPC flow control)
   -- histories (ghost state; never read by the machine)
   sent      : List Nat := []    -- every payload the peer put on the stream, oldest first
   delivered : List Nat := []    -- every payload the listener's `Recv` returned
@@ -141,6 +148,11 @@ inductive Act where
   | push (d : D) (v : Ev)
   /-- the `Send` of direction `d`'s loop starts failing (the receiving peer's stream is broken) -/
   | sendFail (d : D)
+  /-- the peer direction `d`'s loop sends to stops reading (`stall .s`: the initiator, `stall .i`: the source):
+      from now on a `Send` of that loop blocks (flow control) instead of returning -/
+  | stall (d : D)
+  /-- that peer reads again: a blocked `Send` goes through -/
+  | unstall (d : D)
   /-- the initiator goes away: the server stream's context is cancelled -/
   | iniCancel
   /-- proxy shutdown: the `lifetime` context ends -/
@@ -189,7 +201,8 @@ def recvResult (σ : State) (d : D) : Option (Ev × List Ev) :=
     | [] => none
     | v :: r => if v.sticky then some (v, v :: r) else some (v, r)
 
-/-- does the `Send` of direction `d`'s loop succeed -/
+/-- does the `Send` of direction `d`'s loop succeed (once the receiving peer reads: see `Dir.stalled`);
+    `false` = the stream is done / broken / its context cancelled: `Send` returns an error AT ONCE, also when it was blocked -/
 def sendOk (σ : State) : D → Bool
   | .s => !σ.s.sendFails && !σ.srvCtx
   | .i => !σ.i.sendFails && !σ.srvCtx && !σ.outCtx && !σ.connClosed
@@ -200,6 +213,8 @@ def step (σ : State) : Act → Option State
     let x := σ.dir d
     some (σ.setDir d { x with queue := x.queue ++ [v], sent := x.sent ++ v.ids })
   | .sendFail d => some (σ.setDir d { σ.dir d with sendFails := true })
+  | .stall d => some (σ.setDir d { σ.dir d with stalled := true })
+  | .unstall d => some (σ.setDir d { σ.dir d with stalled := false })
   | .iniCancel => some { σ with srvCtx := true }
   | .shutdown => some { σ with connClosed := σ.connClosed || σ.env.shutdownClosesConn }
   | .tick =>
@@ -237,8 +252,12 @@ def step (σ : State) : Act → Option State
     let x := σ.dir d
     match x.loop with
     | .holding (.data i) =>
-      if sendOk σ d then some (σ.setDir d { x with loop := .waiting, out := x.out ++ [i] })
-      else some (σ.setDir d { x with loop := .finished })
+      if sendOk σ d then
+        -- gRPC `Send` blocks while the receiving peer does not read ("until there is sufficient flow control,
+        -- or the stream is done, or the stream breaks"): not enabled; the loop sees neither its channel nor the latch
+        (if x.stalled then none
+         else some (σ.setDir d { x with loop := .waiting, out := x.out ++ [i] }))
+      else some (σ.setDir d { x with loop := .finished })   -- stream done / broken / context cancelled: `Send` returns an error, stalled or not
     | .holding _ => some (σ.setDir d { x with loop := .finished })
     | _ => none
   | .rDefer d =>
